@@ -158,6 +158,7 @@ type Sched struct {
 	// race monitor
 	memHist    map[string][]memLast
 	syncClk    map[*Thread][]int
+	liveChildren, maxLiveChildren int
 	syncObjClk map[string][]int
 	curSyncClk []int
 
